@@ -1,4 +1,6 @@
 mod async_compiler;
+#[cfg(all(mimium_verif, not(target_arch = "wasm32")))]
+pub mod verif_hooks;
 
 use std::{
     env, fs,
